@@ -611,6 +611,16 @@ class World:
     def _note_lock(self, what, path, vt):
         self.effects += 1
         base = os.path.basename(path)
+        if what == "release" and self.pauses:
+            vt.n_any_rel = getattr(vt, "n_any_rel", 0) + 1
+            try:
+                ordinal = self.threads.index(vt)
+            except ValueError:
+                ordinal = -1
+            for rule in self.pauses:
+                if rule.get("any") and rule["thread"] == ordinal and rule["release"] == vt.n_any_rel:
+                    vt.paused_until = self.steps + rule["steps"]
+                    self.note("pause", thread=vt.name, steps=rule["steps"], after=base)
         if self.observe_rows and what == "release":
             d = os.path.dirname(path)
             if os.path.basename(d) == "results":
@@ -628,7 +638,7 @@ class World:
                 except ValueError:
                     ordinal = -1
                 for rule in self.pauses:
-                    if rule["thread"] == ordinal and rule["release"] == vt.n_clock_rel:
+                    if not rule.get("any") and rule["thread"] == ordinal and rule["release"] == vt.n_clock_rel:
                         # the process is held back right after leaving a critical section (a slow node / file system):
                         # the window a check-then-act race across two critical sections needs
                         vt.paused_until = self.steps + rule["steps"]
